@@ -78,6 +78,7 @@ IsRep(d) ==
   IF PairMode = "wide"
   THEN CASE d.k = "v_num" -> d.ty \in RepTys /\ d.cls \in RepCls("v_num")
          [] d.k = "o_pv" -> d.cls \in RepCls("o_pv")
+         [] d.k = "o_het" -> FALSE
          [] OTHER -> TRUE
   ELSE d.cls \in RepCls(d.k) /\ d.ty \in RepTys /\ d.site \in RepSites
 
